@@ -1177,13 +1177,12 @@ _QUICK_APP = [("ns == 1", "loop == %d" % l, c) for l in range(3) for c in ("op <
 _QUICK_HIST = ([("ns == 1", "o0 == 0", c) for c in ("o1 <= 2", "o1 == 3 or o1 == 4", "o1 == 5 or o1 == 7",
                                                      "o1 == 8 or o1 == 11")]
                + [("ns == 1", "o0 == %d" % a) for a in (2, 3, 4, 5, 7, 8)])
-_EXTRA = (1, 6, 9, 10)      # operations only in the full history alphabet
 
 
 def _turn_shards(tier):
     if tier == "quick":
         return _QUICK_TURN
-    # second stream in every state (except two queued chunks)
+    # second stream in every state with <= 1 queued chunk (producer, finished, ...)
     return _QUICK_TURN + [("ns == 2", "not cb", "nq0 == %d" % a, "nq1 == %d" % b2, "prod1 == %d" % pp)
                           for a in range(3) for b2 in range(2) for pp in range(3)]
 
@@ -1191,25 +1190,31 @@ def _turn_shards(tier):
 def _event_shards(tier):
     if tier == "quick":
         return _QUICK_EVENT
-    return _QUICK_EVENT + [("ns == 2", _R1, "loop == %d" % l, "ev == %d" % e, "nq0 == %d" % a)
-                           for l in range(3) for e in range(4) for a in range(3)]
+    # two streams (second reduced), every peer frame: loop scheduled with the first stream in any state; loop
+    # asleep (the frame wakes it and a turn runs inside) with the first stream without producer
+    return (_QUICK_EVENT
+            + [("ns == 2", _R1, "loop == 0", "ev == %d" % e, "nq0 == %d" % a) for e in range(4) for a in range(3)]
+            + [("ns == 2", _R1, "loop == 1", "prod0 == 0", "ev == %d" % e, "nq0 == %d" % a)
+               for e in range(4) for a in range(3)])
 
 
 def _app_shards(tier):
     if tier == "quick":
         return _QUICK_APP
+    # two streams (second reduced), every operation, loop scheduled or asleep
     return _QUICK_APP + [("ns == 2", _R1, "op == %d" % o, "loop == %d" % l, "nq0 == %d" % a)
-                         for o in range(7) for l in range(3) for a in range(3) if not (o == 5 and l == 2)]
+                         for o in range(7) for l in range(2) for a in range(3)]
 
 
 def _hist_shards(tier):
     if tier == "quick":
         return _QUICK_HIST
-    # one stream: the pairs that start with an operation of the full alphabet; two streams: reduced alphabet,
-    # first operation a write or a peer frame
+    # one stream: pairs whose first operation is writeSequence / SETTINGS_MAX_FRAME_SIZE / transport pause,
+    # followed by a write, requestDone, peer frame or turn; two streams: a write followed by a peer frame
     return (_QUICK_HIST
-            + [("ns == 1", "o0 == %d" % a, "o1 == %d" % b2) for a in _EXTRA for b2 in range(12)]
-            + [("ns == 2", "o0 == %d" % a, "o1 == %d" % b2) for a in (0, 3, 4, 5) for b2 in (0, 2, 3, 4, 5, 7, 8, 11)])
+            + [("ns == 1", "o0 == 1", "o1 == %d" % b2) for b2 in (2, 3, 4, 5, 8)]
+            + [("ns == 1", "o0 == %d" % a, "o1 == %d" % b2) for a in (6, 9) for b2 in (0, 2, 3, 4, 5, 8)]
+            + [("ns == 2", "o0 == 0", "o1 == %d" % b2, c) for b2 in (3, 4, 5) for c in ("idle0", "not idle0")])
 
 
 HARNESSES = [
